@@ -345,6 +345,57 @@ func runC13(c *runCtx) {
 			}
 		}
 	}
+	// an error that was returned stays what it was: every error of a round over statement-less, lexically wrong and
+	// syntactically wrong texts (through every entry point, tracked and untracked ones interleaved) is kept, the round is
+	// repeated in another order, and then the kept errors are read again
+	{
+		texts := []string{"", ";", " ;; ", "-- c\n", "/* c */", "\n\n\n   ;", "\n\n\n\n      -- only\n   ", "SELECT FROM", "\n\n  SELECT a FROM t WHERE", "SELECT 'open", "\n   SELECT \"open", "SELECT 1 2", "\t\tFOO"}
+		type kept struct {
+			entry, text, snap string
+			err               error
+		}
+		snapOf := func(err error) string {
+			var se *goerrors.Error
+			if errors.As(err, &se) {
+				return fmt.Sprintf("%s|%s|%d:%d|%s", se.Code, se.Message, se.Location.Line, se.Location.Column, err.Error())
+			}
+			return "unstructured|" + err.Error()
+		}
+		var keptErrs []kept
+		first := map[string]string{}
+		for round := 0; round < 3; round++ {
+			order := append([]string{}, names...)
+			if round == 1 {
+				for a, b := 0, len(order)-1; a < b; a, b = a+1, b-1 {
+					order[a], order[b] = order[b], order[a]
+				}
+			}
+			for ti := range texts {
+				t := texts[(ti*(round+1)+round)%len(texts)]
+				for _, name := range order {
+					err := entries[name](t)
+					if err == nil {
+						continue
+					}
+					res.count(fmt.Sprintf("kept|%d|%s|%s", round, name, t), true)
+					sn := snapOf(err)
+					k := name + "\x00" + t
+					if f, ok := first[k]; !ok {
+						first[k] = sn
+					} else if f != sn {
+						res.fail("history-dependent-error:"+name, "the same rejected input gives a different error after other calls", map[string]any{"entry": name, "input": t, "round": round}, map[string]any{"first": f, "now": sn})
+					}
+					keptErrs = append(keptErrs, kept{name, t, sn, err})
+				}
+			}
+		}
+		for _, ke := range keptErrs {
+			if now := snapOf(ke.err); now != ke.snap {
+				res.fail("returned-error-changed-later", "an error value that had been returned reads differently after later calls", map[string]any{"entry": ke.entry, "input": ke.text}, map[string]any{"when_returned": ke.snap, "now": now})
+				break
+			}
+		}
+	}
 	// long runs of failures on ONE parser (a reused parser.Parser, and one recovery-mode parse of a long script) do not
 	// change what later inputs answer: after 60 failures inside any construct — the right or left operand of every binary
 	// operator three levels deep, function arguments, CASE arms, lists, casts, sub-queries, CTE bodies … — a deep
